@@ -72,8 +72,11 @@ class CompileCase:
             self.built.net.step(init_conditions=ic, engine=self.engine, **self.opts, **kw)
         self.order = C.live_order(self.built)
 
-    def compile(self, compact, more_out):
-        other = {k: v for k, v in self.spars.items() if v is not None and k not in self.parameters}
+    def compile(self, compact, more_out, also_keywords=False):
+        """also_keywords: declared symbolic model parameters (T, tau, ...) are ALSO passed as keyword
+        arguments, as in the README (`to_function(net=net, parameters=..., T=T)`); only legal without
+        flow outputs (with them the library itself refuses the duplicate keyword)."""
+        other = {k: v for k, v in self.spars.items() if v is not None and (also_keywords or k not in self.parameters)}
         return self.engine.to_function(
             self.built.net, compact=compact, more_out=more_out,
             parameters=(self.parameters or None), **other)
